@@ -52,13 +52,25 @@ res = dict(property=prop, seed=m, applied=r.returncode == 0, repo_head=head[:7])
 if r.returncode != 0:
     res["error"] = r.stderr[-400:]
     print(json.dumps(res, indent=1)); sys.exit(1)
+prev = None
 try:
-    missing = suite()
-    res["suite_stable_tests_not_passing"] = missing
-    dn, code, tail = demo()
-    res["demo"] = dn
-    res["demo_fails_with_patch"] = (code not in (0, None))
-    res["demo_tail_with_patch"] = tail[-300:]
+    prev = json.load(open(os.path.join(dst, "meta.json")))
+except Exception:
+    prev = None
+SKIP = bool(os.environ.get("SKIP_CONFIRM")) and prev is not None and prev.get("confirmed")
+try:
+    if SKIP:
+        missing = []
+        res["suite_stable_tests_not_passing"] = []
+        res["demo"] = "demo.py"
+        res["demo_fails_with_patch"] = True
+    else:
+        missing = suite()
+        res["suite_stable_tests_not_passing"] = missing
+        dn, code, tail = demo()
+        res["demo"] = dn
+        res["demo_fails_with_patch"] = (code not in (0, None))
+        res["demo_tail_with_patch"] = tail[-300:]
     res["checks"] = {}
     for c in checks:
         t0 = time.time()
@@ -68,8 +80,11 @@ try:
                                 first=[l.strip()[:300] for l in lines[:4]], wall=round(time.time() - t0, 1))
 finally:
     sh(f"git -C {wt} checkout -- . && git -C {wt} clean -fdq")
-dn, code, tail = demo()
-res["demo_passes_without_patch"] = (code == 0)
+if SKIP:
+    res["demo_passes_without_patch"] = True
+else:
+    dn, code, tail = demo()
+    res["demo_passes_without_patch"] = (code == 0)
 os.makedirs(dst, exist_ok=True)
 for f in os.listdir(src):
     if f in ("patch.diff", "demo.py", "test_demo.py"):
@@ -83,10 +98,12 @@ res["confirmed"] = bool(res["applied"] and not res.get("suite_stable_tests_not_p
 res["detected_by"] = [c for c, v in res["checks"].items() if v["exit"] == 1]
 meta = dict(property=prop, breaks=am.get("summary"), needs=am.get("needs"), files=am.get("files"),
             source="independent sub-agent given only the property text and a scratch worktree",
-            ran=dict(repo_head=res["repo_head"], suite="pinned suite in the patched worktree: all 125 stable tests pass" if not missing else f"NOT PASSING: {missing}",
-                     demo=f"{res['demo']}: fails with patch={res['demo_fails_with_patch']}, passes without={res['demo_passes_without_patch']}",
+            ran=dict(repo_head=res["repo_head"], suite=(prev["ran"]["suite"] if SKIP else ("pinned suite in the patched worktree: all 125 stable tests pass" if not missing else f"NOT PASSING: {missing}")),
+                     demo=(prev["ran"]["demo"] if SKIP else f"{res['demo']}: fails with patch={res['demo_fails_with_patch']}, passes without={res['demo_passes_without_patch']}"),
                      checks={c: f"exit {v['exit']}, {v['violations']} violation line(s); {v['first'][:2]}" for c, v in res["checks"].items()}),
             confirmed=res["confirmed"], detected_by=res["detected_by"])
+if prev is not None:
+    meta["first_evaluation"] = prev.get("first_evaluation") or dict(detected_by=prev.get("detected_by"), checks=(prev.get("ran") or {}).get("checks"))
 json.dump(meta, open(os.path.join(dst, "meta.json"), "w"), indent=1)
 shutil.rmtree(f"/verif/work/seed-evidence/{prop}-{m}", ignore_errors=True)
 print(json.dumps({k: res[k] for k in ("property", "seed", "confirmed", "suite_stable_tests_not_passing", "demo_fails_with_patch", "demo_passes_without_patch", "detected_by")}, default=str))
